@@ -1235,15 +1235,16 @@ def _k_semicolon_in_comment(vio):
             depth += 1
         elif tok == ")" and depth:
             depth -= 1
-        elif tok == ";" and depth:
+        elif depth and tok in (";", "then", "else", "loop", "+loop", "until", "again", "repeat", "while"):
             return True
     return False
 
 
 LOCAL_KNOWN = [
     ("FF86-forth-semicolon-inside-comment", _k_semicolon_in_comment,
-     "a `;` inside a `( ... )` comment within a word definition ends the definition (the compiler looks for the "
-     "closing `;` before it skips comments): `: w 1 ( a ; b ) 2 ;` is refused with \"'(' is missing its closing ')'\""),
+     "a structure-closing word (`;`, `then`, `else`, `loop`, `until`, `repeat`, ...) inside a `( ... )` comment within "
+     "that structure ends it (the compiler looks for the closing word before it skips comments): `: w 1 ( a ; b ) 2 ;` "
+     "and `1 if ( a then b ) 2 then` are refused with \"'(' is missing its closing ')'\""),
     ("FF72-forth-negative-repeat-count", _k_negative_count,
      "AwkwardForth repeated read `n x #T-> ...` with a negative count n moves the input position backwards "
      "without a bounds check (ForthInputBuffer::read only tests the upper end): later reads run before the "
